@@ -421,7 +421,7 @@ impl Profile {
             }
             Profile::N => {
                 let used = named_before(prefix);
-                for nm in ["a", "", "a b", "a-b", "a/b", "a_b", "b c/d-e"] {
+                for nm in ["a", "", "a b", "a-b", "a/b", "a_b", "b c/d-e", " ", "  ", "--"] {
                     if !nm.is_empty() && used.iter().any(|u| u == nm) {
                         continue;
                     }
@@ -1128,6 +1128,15 @@ pub fn c19_check(ops: &[Op], l: &crate::hsys::Layout, nmaps: usize) -> (u64, Vec
             let nn = names.clone();
             cmp("names rotated among the systems", "plan-depends-on-names", &map_names(ops, &|s| nn[(nn.iter().position(|x| x == s).unwrap_or(0) + 1) % nn.len()].clone()), &idm, &mut n, &mut vs);
         }
+    }
+    if !names.is_empty() && names.len() <= 4 {
+        // names that differ only in their separator characters are different names
+        let twins = ["n x", "n-x", "n/x", "n_x"];
+        let nn = names.clone();
+        cmp("names that differ only in a separator character (n x, n-x, n/x, n_x)", "plan-depends-on-names", &map_names(ops, &|s| twins[nn.iter().position(|x| x == s).unwrap_or(0) % 4].to_string()), &idm, &mut n, &mut vs);
+        let blanks = [" ", "  ", "-", "--"];
+        let nn = names.clone();
+        cmp("names made of blanks / separators only", "plan-depends-on-names", &map_names(ops, &|s| blanks[nn.iter().position(|x| x == s).unwrap_or(0) % 4].to_string()), &idm, &mut n, &mut vs);
     }
     // (i-b) the empty name is a name too: give every unnamed system a fresh name; un-name every system
     //       that nobody depends on
